@@ -61,6 +61,7 @@ def run(tier):
         chk.violation(sig, "config %s: %s on consumed=[%s] model=%s got=%s" % (f["cfgname"], sig["ev"], sig["consumed"], sig["model"], sig["got"]),
                       dict(cfgname=f["cfgname"], script=f["script"], failing_event=f["event"]))
     api_part(chk, thorough, exported)
+    later_request_part(chk, thorough)
     chk.sample(dict(kind="script", cfg=items[len(items) // 2][0], script=items[len(items) // 2][2]))
     chk.sample(dict(kind="trace-events", events=rec.events[1:4]))
     chk.assumptions += ["loopback UDP preserves order and does not drop (single-threaded stepping)",
@@ -138,9 +139,52 @@ def api_part(chk, thorough, exported):
                       dict(kind="api", client=info["client"], cfgname=info["cfgname"], plan=info["plan"], variant=info["variant"], failing_event=ev))
 
 
+def later_request_part(chk, thorough):
+    """'Skipped without ending the wait, so a matching reply arriving later is still delivered' over a HISTORY: the wait of request 1
+    skips a foreign datagram late and then ends without a reply; request 2 on the same session is answered inside its own wait and must
+    be delivered (nothing of the first wait may be left on the socket).  Real time; judged by TraceTimeout.tla, reported after three
+    failing runs."""
+    from checks import c18
+    std = scripts.std_cfgs()
+    plans = [(client, cn, sa, ra) for client in ("sync", "async") for cn in (("v2c", "v3-md5") if not thorough else ("v1", "v2c", "v3-noauth", "v3-md5", "v3-sha1-aes"))
+             for sa, ra in (((3, 3),) if not thorough else ((3, 3), (3, 1), (2, 3), (1, 2)))]
+    for client, cn, sa, ra in plans:
+        evs = []
+        for attempt in range(3):
+            r = c18.run_pair(client, std[cn], sa, ra)
+            rec2 = trace.Recorder("c04-later")
+            rec2.emit(c18.event(client, cn, (sa,), 0, *r[0]))
+            rec2.emit(c18.event(client, cn, (), ra, *r[1]))
+            v2 = trace.validate("TraceTimeout.tla", "TraceTimeout.cfg", rec2.close())
+            if attempt == 0:
+                chk.add_tlc(v2["res"], "TraceTimeout(c04 later request %s %s)" % (client, cn))
+                chk.case(("later-request", client, cn, sa, ra), nontrivial=True)
+            evs.append(rec2.events[-1])
+            if 2 not in v2["fails"]:          # the first call's own timing is C18's business
+                break
+        else:
+            chk.violation(dict(kind="later-request", client=client, result=evs[0]["result"]),
+                          "%s %s: request 1 skipped a foreign datagram at tick %d and timed out; request 2 on the same session, answered at tick %d of %d, ended %s after %d ms" %
+                          (client, cn, sa, ra, c18.T, evs[0]["result"], evs[0]["elapsed_ms"]), dict(kind="later", client=client, cfgname=cn, pair=[sa, ra], runs=evs))
+
+
 def replay(path):
     d = json.load(open(path))
     r = d["replay"]
+    if r.get("kind") == "later":
+        from checks import c18
+        std = scripts.std_cfgs()
+        bad = 0
+        for _ in range(3):
+            x = c18.run_pair(r["client"], std[r["cfgname"]], r["pair"][0], r["pair"][1])
+            rec2 = trace.Recorder("c04-later-replay")
+            rec2.emit(c18.event(r["client"], r["cfgname"], (), r["pair"][1], *x[1]))
+            bad += 1 if trace.validate("TraceTimeout.tla", "TraceTimeout.cfg", rec2.close())["fails"] else 0
+        if bad == 3:
+            print("VIOLATION property=C04 replay=%s" % path)
+            return 1
+        print("replay: accepted")
+        return 0
     if r.get("kind") == "api":
         std = scripts.std_cfgs()
         bad = 0
